@@ -1,8 +1,17 @@
 // Unit c14_overlay_database -- property C14 "A database overlay behaves like the database with the commits
-// applied": the overlay STORE (point reads through the overlay, merging a commit into the staged updates).
-// Real code: radix-substate-store-impls/src/substate_database_overlay.rs; data types from
-// radix-substate-store-interface/src/interface.rs and radix-common/src/state/state_updates.rs.
-// (The ordered-listing merge core is unit c14_overlay_iterator.)
+// applied": the overlay STORE.
+// Real code under contract (bodies extracted verbatim):
+//   radix-substate-store-impls/src/substate_database_overlay.rs
+//     SubstateDatabaseOverlay::{new, get_readable_root, get_writable_root, get_raw_substate_by_db_key,
+//       commit, commit_overlay_into_root_store, deconstruct, database_updates, into_database_updates},
+//     fn merge_database_updates, and all six `From` conversions between DatabaseUpdates /
+//     NodeDatabaseUpdates / PartitionDatabaseUpdates and their Staging* (BTreeMap) forms;
+//   radix-substate-store-interface/src/interface.rs
+//     PartitionDatabaseUpdates::get_substate_change, DatabaseUpdates::from_delta_maps.
+// Oracle: apply(updates, base) over Map<(partition key, sort key), value> -- Delta = per-key
+// Set/Delete, Reset = the partition is replaced by exactly the new values.
+// NOT here: list_raw_values_from_db_key / list_partition_keys (Box<dyn Iterator> + adapter chains; their
+// merge core OverlayingIterator is unit c14_overlay_iterator), InMemorySubstateDatabase (memory_db.rs).
 use vstd::prelude::*;
 verus! {
 /*@include shims/rt.rs @*/
@@ -26,10 +35,46 @@ pub mod env {
         fn default() -> (r: Self) ensures r.node_updates@ == Map::<DbNodeKey, StagingNodeDatabaseUpdates>::empty() { unimplemented!() }
     }
 
-    /// radix-substate-store-interface :: trait CommittableSubstateDatabase (no contract assumed;
-    /// the overlay's impl states its own)
-    pub trait CommittableSubstateDatabase {
-        fn commit(&mut self, database_updates: &DatabaseUpdates);
+    /// derive(Default) of DatabaseUpdates / NodeDatabaseUpdates: field-wise default = empty IndexMap
+    impl Default for DatabaseUpdates {
+        #[verifier::external_body]
+        fn default() -> (r: Self) ensures r.node_updates@ == Map::<DbNodeKey, NodeDatabaseUpdates>::empty() { unimplemented!() }
+    }
+    impl Default for NodeDatabaseUpdates {
+        #[verifier::external_body]
+        fn default() -> (r: Self) ensures r.partition_updates@ == Map::<DbPartitionNum, PartitionDatabaseUpdates>::empty() { unimplemented!() }
+    }
+
+    /// derived `Clone` of StagingDatabaseUpdates: ASSUMED to return an equal value
+    impl Clone for StagingDatabaseUpdates {
+        #[verifier::external_body]
+        fn clone(&self) -> (r: Self) ensures r == *self { unimplemented!() }
+    }
+
+    /// core::borrow::BorrowMut: the mutable reference points to the same value as `borrow()`
+    /// (std: "borrow and borrow_mut must behave identically"); what is finally stored behind it is
+    /// what `borrowed()` is afterwards
+    pub trait BorrowMut<T>: Borrow<T> {
+        fn borrow_mut(&mut self) -> (r: &mut T)
+            ensures *r == old(self).borrowed(), final(self).borrowed() == *final(r);
+    }
+
+    /// Option::or (std: "returns the option if it contains a value, otherwise returns optb")
+    pub assume_specification<T>[Option::<T>::or](a: Option<T>, b: Option<T>) -> (r: Option<T>)
+        ensures r == (if a is Some { a } else { b });
+
+    /// core::mem::take: returns the old value and leaves `T::default()` behind
+    pub assume_specification<T: Default>[core::mem::take](dest: &mut T) -> (r: T)
+        ensures r == *old(dest), call_ensures(T::default, (), *final(dest));
+
+    /// radix-substate-store-interface :: trait CommittableSubstateDatabase.  Nothing is assumed
+    /// about what an implementation does: `commit_rel` is an ABSTRACT relation between the state
+    /// before, the updates passed, and the state after (each impl defines it; for the overlay it
+    /// is `commit_post`, for a generic root it stays uninterpreted).
+    pub trait CommittableSubstateDatabase: Sized {
+        spec fn commit_rel(pre: Self, u: DatabaseUpdates, post: Self) -> bool;
+        fn commit(&mut self, database_updates: &DatabaseUpdates)
+            ensures Self::commit_rel(*old(self), *database_updates, *final(self));
     }
 
     /// core::borrow::Borrow (re-exported by radix_rust::prelude::borrow): `borrowed()` is the value
@@ -80,6 +125,8 @@ pub mod unit {
     @*/
     /*@item radix-common/src/state/state_updates.rs :: enum DatabaseUpdate
     @derive
+    @*/
+    /*@item radix-common/src/state/state_updates.rs :: enum DatabaseUpdateRef
     @*/
     /*@item radix-substate-store-interface/src/interface.rs :: struct DatabaseUpdates
     @derive
@@ -195,6 +242,66 @@ pub mod unit {
         pub open spec fn view(&self) -> UpdView {
             IMap::new(|pk: DbPartitionKey| self.part(pk) is Some, |pk: DbPartitionKey| self.part(pk)->0)
         }
+    }
+
+    // ---- effective change of one partition update on one sort key (interface.rs helper) ----------
+    /// the change `c` reported for a sort key acts on any current value like the partition update
+    pub open spec fn change_acts_like(c: Option<DatabaseUpdateRef<'_>>, p: PartView, sk: DbSortKey) -> bool {
+        forall|cur: Option<DbSubstateValue>| match c {
+            None => #[trigger] apply_part(Some(p), cur, sk) == cur,
+            Some(DatabaseUpdateRef::Delete) => apply_part(Some(p), cur, sk) is None,
+            Some(DatabaseUpdateRef::Set(b)) => apply_part(Some(p), cur, sk) is Some && apply_part(Some(p), cur, sk)->0@ == b@,
+        }
+    }
+    impl PartitionDatabaseUpdates {
+        /*@fn radix-substate-store-interface/src/interface.rs :: impl PartitionDatabaseUpdates :: fn get_substate_change
+        @sig
+            ensures
+                change_acts_like(ret, self.pview(), *sort_key),
+                ret is None <==> (*self is Delta && !self->substate_updates@.contains_key(*sort_key)),
+        @closure 1 := |update: &DatabaseUpdate| -> (r: DatabaseUpdateRef<'_>) ensures match *update { DatabaseUpdate::Set(v) => r matches DatabaseUpdateRef::Set(b) && b@ == v@, DatabaseUpdate::Delete => r is Delete }
+        @closure 2 := |value: &DbSubstateValue| -> (r: DatabaseUpdateRef<'_>) ensures r matches DatabaseUpdateRef::Set(b) && b@ == value@
+        @*/
+    }
+
+    impl DatabaseUpdates {
+        /*@fn radix-substate-store-interface/src/interface.rs :: impl DatabaseUpdates :: fn from_delta_maps
+        @sig
+            ensures
+                forall|pk: DbPartitionKey| #[trigger] ret.part(pk)
+                    == (if maps@.contains_key(pk) { Some(PartView::Delta(maps@[pk]@)) } else { None::<PartView> }),
+        @loop 1 iter it
+            invariant
+                enumerates(it.snapshot@.rest(), maps@),
+                0 <= it.index@ <= it.snapshot@.rest().len(),
+                all_seen(it.snapshot@.rest(), it.index@ as int, maps@),
+                forall|pk: DbPartitionKey| seen(it.snapshot@.rest(), it.index@ as int, pk) ==> maps@.contains_key(pk),
+                forall|pk: DbPartitionKey| #[trigger] database_updates.part(pk)
+                    == (if seen(it.snapshot@.rest(), it.index@ as int, pk) { Some(PartView::Delta(maps@[pk]@)) } else { None::<PartView> }),
+        @before <<for>> #1
+            proof {
+                assert forall|s: Seq<(DbPartitionKey, IndexMap<DbSortKey, DatabaseUpdate>)>, n: int, m: Map<DbPartitionKey, IndexMap<DbSortKey, DatabaseUpdate>>|
+                    #![trigger all_seen(s, n, m)] enumerates(s, m) implies all_seen(s, n, m) by { lemma_all_seen(s, n, m); }
+            }
+        @before <<database_updates .node_updates .entry(>> #1
+            let ghost du1 = database_updates;
+            let ghost e = it.snapshot@.rest();
+            let ghost i = it.index@ as int;
+            proof {
+                lemma_step(e, maps@, i);
+                assert(e[i].0 == DbPartitionKey { node_key, partition_num });
+                assert(e[i].1 == substate_updates);
+            }
+        @after <<database_updates .node_updates .entry(>> #1
+            proof {
+                assert forall|pk: DbPartitionKey| #[trigger] database_updates.part(pk)
+                    == (if seen(e, i + 1, pk) { Some(PartView::Delta(maps@[pk]@)) } else { None::<PartView> }) by {
+                    if pk != e[i].0 {
+                        assert(database_updates.part(pk) == du1.part(pk));
+                    }
+                }
+            }
+        @*/
     }
 
     // ---- read path ------------------------------------------------------------------------------
@@ -368,7 +475,8 @@ pub mod unit {
             ensures
                 forall|pn: DbPartitionNum| #[trigger] ret.part(pn) == value.part(pn),
                 ret == staged_node(value),
-        @subst <<|(key, value)| (key, StagingPartitionDatabaseUpdates::from(value))>> => <<|kv: (DbPartitionNum, PartitionDatabaseUpdates)| -> (r: (DbPartitionNum, StagingPartitionDatabaseUpdates)) ensures r.0 == kv.0, r.1 == staged_part(kv.1) { let (key, value) = kv; (key, StagingPartitionDatabaseUpdates::from(value)) }>> x1 why: Verus closures accept only plain variables as parameters ("only variables are supported here, not general patterns"); the tuple pattern is moved into a `let` on the same argument, and the closure gets the type/ensures annotation Verus needs to pass it to `map`
+        @closure 1 := |kv: (DbPartitionNum, PartitionDatabaseUpdates)| -> (r: (DbPartitionNum, StagingPartitionDatabaseUpdates)) ensures r.0 == kv.0, r.1 == staged_part(kv.1)
+        @at <<(key,>> #2 := let (key, value) = kv;
         @entry
             proof {
                 assert forall|s: Seq<(DbPartitionNum, PartitionDatabaseUpdates)>, m: Map<DbPartitionNum, PartitionDatabaseUpdates>,
@@ -572,6 +680,151 @@ pub mod unit {
         }
     @*/
 
+    // ---- conversions staged form -> DatabaseUpdates (what leaves the overlay) ------------------------
+    pub open spec fn unstaged_part(v: StagingPartitionDatabaseUpdates) -> PartitionDatabaseUpdates {
+        match v {
+            StagingPartitionDatabaseUpdates::Delta { substate_updates } =>
+                PartitionDatabaseUpdates::Delta { substate_updates: IndexMap::from_seq(substate_updates.sorted()) },
+            StagingPartitionDatabaseUpdates::Reset { new_substate_values } =>
+                PartitionDatabaseUpdates::Reset { new_substate_values: IndexMap::from_seq(new_substate_values.sorted()) },
+        }
+    }
+    pub open spec fn unstaged_parts(s: Seq<(DbPartitionNum, StagingPartitionDatabaseUpdates)>) -> Seq<(DbPartitionNum, PartitionDatabaseUpdates)> {
+        Seq::new(s.len(), |i: int| (s[i].0, unstaged_part(s[i].1)))
+    }
+    pub open spec fn unstaged_node(v: StagingNodeDatabaseUpdates) -> NodeDatabaseUpdates {
+        NodeDatabaseUpdates { partition_updates: IndexMap::from_seq(unstaged_parts(v.partition_updates.sorted())) }
+    }
+    pub open spec fn unstaged_nodes(s: Seq<(DbNodeKey, StagingNodeDatabaseUpdates)>) -> Seq<(DbNodeKey, NodeDatabaseUpdates)> {
+        Seq::new(s.len(), |i: int| (s[i].0, unstaged_node(s[i].1)))
+    }
+    pub open spec fn unstaged_db(v: StagingDatabaseUpdates) -> DatabaseUpdates {
+        DatabaseUpdates { node_updates: IndexMap::from_seq(unstaged_nodes(v.node_updates.sorted())) }
+    }
+
+    /// the conversions keep the abstract content
+    pub proof fn lemma_unstaged_part(v: StagingPartitionDatabaseUpdates)
+        ensures unstaged_part(v).pview() == v.pview()
+    {
+        match v {
+            StagingPartitionDatabaseUpdates::Delta { substate_updates } => {
+                lemma_collect_enumeration(substate_updates.sorted(), substate_updates@);
+            }
+            StagingPartitionDatabaseUpdates::Reset { new_substate_values } => {
+                lemma_collect_enumeration(new_substate_values.sorted(), new_substate_values@);
+            }
+        }
+    }
+    pub proof fn lemma_unstaged_node(v: StagingNodeDatabaseUpdates, pn: DbPartitionNum)
+        ensures unstaged_node(v).part(pn) == v.part(pn)
+    {
+        let s = v.partition_updates.sorted();
+        let t = unstaged_parts(s);
+        let m = v.partition_updates@;
+        let tm = seq_to_map(t);
+        lemma_seq_to_map_dom(t, pn);
+        if has_key(t, pn) {
+            let i = choose|i: int| 0 <= i < t.len() && (#[trigger] t[i]).0 == pn;
+            assert(m.contains_key(s[i].0));
+            assert forall|j: int| i < j < t.len() implies (#[trigger] t[j]).0 != t[i].0 by { assert(s[i].0 != s[j].0); }
+            lemma_seq_to_map_val(t, i);
+            lemma_unstaged_part(s[i].1);
+        }
+        if m.contains_key(pn) {
+            assert(has_key(s, pn));
+            let i = choose|i: int| 0 <= i < s.len() && (#[trigger] s[i]).0 == pn;
+            assert(t[i].0 == pn);
+        }
+    }
+    pub proof fn lemma_unstaged_db(v: StagingDatabaseUpdates, pk: DbPartitionKey)
+        ensures unstaged_db(v).part(pk) == v.part(pk)
+    {
+        let s = v.node_updates.sorted();
+        let t = unstaged_nodes(s);
+        let m = v.node_updates@;
+        let nk = pk.node_key;
+        lemma_seq_to_map_dom(t, nk);
+        if has_key(t, nk) {
+            let i = choose|i: int| 0 <= i < t.len() && (#[trigger] t[i]).0 == nk;
+            assert(m.contains_key(s[i].0));
+            assert forall|j: int| i < j < t.len() implies (#[trigger] t[j]).0 != t[i].0 by { assert(s[i].0 != s[j].0); }
+            lemma_seq_to_map_val(t, i);
+            lemma_unstaged_node(s[i].1, pk.partition_num);
+        }
+        if m.contains_key(nk) {
+            assert(has_key(s, nk));
+            let i = choose|i: int| 0 <= i < s.len() && (#[trigger] s[i]).0 == nk;
+            assert(t[i].0 == nk);
+        }
+    }
+
+    impl vstd::std_specs::convert::FromSpecImpl<StagingPartitionDatabaseUpdates> for PartitionDatabaseUpdates {
+        open spec fn obeys_from_spec() -> bool { true }
+        open spec fn from_spec(v: StagingPartitionDatabaseUpdates) -> Self { unstaged_part(v) }
+    }
+    impl From<StagingPartitionDatabaseUpdates> for PartitionDatabaseUpdates {
+        /*@fn radix-substate-store-impls/src/substate_database_overlay.rs :: impl From<StagingPartitionDatabaseUpdates> for PartitionDatabaseUpdates :: fn from
+        @sig
+            ensures
+                ret.pview() == value.pview(),
+                ret == unstaged_part(value),
+        @entry
+            proof { lemma_unstaged_part(value); }
+        @*/
+    }
+
+    impl vstd::std_specs::convert::FromSpecImpl<StagingNodeDatabaseUpdates> for NodeDatabaseUpdates {
+        open spec fn obeys_from_spec() -> bool { true }
+        open spec fn from_spec(v: StagingNodeDatabaseUpdates) -> Self { unstaged_node(v) }
+    }
+    impl From<StagingNodeDatabaseUpdates> for NodeDatabaseUpdates {
+        /*@fn radix-substate-store-impls/src/substate_database_overlay.rs :: impl From<StagingNodeDatabaseUpdates> for NodeDatabaseUpdates :: fn from
+        @sig
+            ensures
+                forall|pn: DbPartitionNum| #[trigger] ret.part(pn) == value.part(pn),
+                ret == unstaged_node(value),
+        @closure 1 := |kv: (DbPartitionNum, StagingPartitionDatabaseUpdates)| -> (r: (DbPartitionNum, PartitionDatabaseUpdates)) ensures r.0 == kv.0, r.1 == unstaged_part(kv.1)
+        @at <<(key,>> #2 := let (key, value) = kv;
+        @entry
+            let ghost s0 = value.partition_updates.sorted();
+            proof {
+                assert forall|pn: DbPartitionNum| #[trigger] unstaged_node(value).part(pn) == value.part(pn) by { lemma_unstaged_node(value, pn); }
+                assert forall|t: Seq<(DbPartitionNum, PartitionDatabaseUpdates)>|
+                    #![trigger IndexMap::<DbPartitionNum, PartitionDatabaseUpdates>::from_seq(t)]
+                    t.len() == s0.len() && (forall|i: int| 0 <= i < s0.len() ==> (#[trigger] t[i]).0 == s0[i].0 && t[i].1 == unstaged_part(s0[i].1))
+                    implies t == unstaged_parts(s0) by {
+                    assert(t =~= unstaged_parts(s0));
+                }
+            }
+        @*/
+    }
+
+    impl vstd::std_specs::convert::FromSpecImpl<StagingDatabaseUpdates> for DatabaseUpdates {
+        open spec fn obeys_from_spec() -> bool { true }
+        open spec fn from_spec(v: StagingDatabaseUpdates) -> Self { unstaged_db(v) }
+    }
+    impl From<StagingDatabaseUpdates> for DatabaseUpdates {
+        /*@fn radix-substate-store-impls/src/substate_database_overlay.rs :: impl From<StagingDatabaseUpdates> for DatabaseUpdates :: fn from
+        @sig
+            ensures
+                forall|pk: DbPartitionKey| #[trigger] ret.part(pk) == value.part(pk),
+                ret == unstaged_db(value),
+        @closure 1 := |kv: (DbNodeKey, StagingNodeDatabaseUpdates)| -> (r: (DbNodeKey, NodeDatabaseUpdates)) ensures r.0 == kv.0, r.1 == unstaged_node(kv.1)
+        @at <<(key,>> #2 := let (key, value) = kv;
+        @entry
+            let ghost s0 = value.node_updates.sorted();
+            proof {
+                assert forall|pk: DbPartitionKey| #[trigger] unstaged_db(value).part(pk) == value.part(pk) by { lemma_unstaged_db(value, pk); }
+                assert forall|t: Seq<(DbNodeKey, NodeDatabaseUpdates)>|
+                    #![trigger IndexMap::<DbNodeKey, NodeDatabaseUpdates>::from_seq(t)]
+                    t.len() == s0.len() && (forall|i: int| 0 <= i < s0.len() ==> (#[trigger] t[i]).0 == s0[i].0 && t[i].1 == unstaged_node(s0[i].1))
+                    implies t == unstaged_nodes(s0) by {
+                    assert(t =~= unstaged_nodes(s0));
+                }
+            }
+        @*/
+    }
+
     // ---- the overlay as a committable database ------------------------------------------------------
     /// what one `commit(u)` does to an overlay: the root is not touched, and the staged updates
     /// become "staged-then-u" (per partition, and as a transformation of every base database)
@@ -591,9 +844,66 @@ pub mod unit {
     }
 
     impl<S, D> CommittableSubstateDatabase for SubstateDatabaseOverlay<S, D> {
+        open spec fn commit_rel(pre: Self, u: DatabaseUpdates, post: Self) -> bool { commit_post(pre, u, post) }
+
         /*@fn radix-substate-store-impls/src/substate_database_overlay.rs :: impl<S, D> CommittableSubstateDatabase for SubstateDatabaseOverlay<S, D> :: fn commit
         @sig
             ensures commit_post(*old(self), *database_updates, *final(self))
+        @*/
+    }
+
+    // ---- what leaves the overlay: the staged updates as DatabaseUpdates, flushing into the root ------
+    impl<S, D> SubstateDatabaseOverlay<S, D> {
+        /*@fn radix-substate-store-impls/src/substate_database_overlay.rs :: impl<S, D> SubstateDatabaseOverlay<S, D> :: fn deconstruct
+        @sig
+            ensures
+                ret.0 == self.root,
+                ret.1 == unstaged_db(self.overlay),
+                forall|pk: DbPartitionKey| #[trigger] ret.1.part(pk) == self.overlay.part(pk),
+        @entry
+            proof { assert forall|pk: DbPartitionKey| #[trigger] unstaged_db(self.overlay).part(pk) == self.overlay.part(pk) by { lemma_unstaged_db(self.overlay, pk); } }
+        @*/
+
+        /*@fn radix-substate-store-impls/src/substate_database_overlay.rs :: impl<S, D> SubstateDatabaseOverlay<S, D> :: fn database_updates
+        @sig
+            ensures
+                ret == unstaged_db(self.overlay),
+                forall|pk: DbPartitionKey| #[trigger] ret.part(pk) == self.overlay.part(pk),
+        @entry
+            proof { assert forall|pk: DbPartitionKey| #[trigger] unstaged_db(self.overlay).part(pk) == self.overlay.part(pk) by { lemma_unstaged_db(self.overlay, pk); } }
+        @*/
+
+        /*@fn radix-substate-store-impls/src/substate_database_overlay.rs :: impl<S, D> SubstateDatabaseOverlay<S, D> :: fn into_database_updates
+        @sig
+            ensures
+                ret == unstaged_db(self.overlay),
+                forall|pk: DbPartitionKey| #[trigger] ret.part(pk) == self.overlay.part(pk),
+        @entry
+            proof { assert forall|pk: DbPartitionKey| #[trigger] unstaged_db(self.overlay).part(pk) == self.overlay.part(pk) by { lemma_unstaged_db(self.overlay, pk); } }
+        @*/
+    }
+
+    impl<S: BorrowMut<D>, D> SubstateDatabaseOverlay<S, D> {
+        /*@fn radix-substate-store-impls/src/substate_database_overlay.rs :: impl<S: BorrowMut<D>, D> SubstateDatabaseOverlay<S, D> :: fn get_writable_root
+        @sig
+            ensures
+                *ret == old(self).root.borrowed(),
+                final(self).root.borrowed() == *final(ret),
+                final(self).overlay == old(self).overlay,
+        @*/
+    }
+
+    impl<S: BorrowMut<D>, D: CommittableSubstateDatabase> SubstateDatabaseOverlay<S, D> {
+        /*@fn radix-substate-store-impls/src/substate_database_overlay.rs :: impl<S: BorrowMut<D>, D: CommittableSubstateDatabase> SubstateDatabaseOverlay<S, D> :: fn commit_overlay_into_root_store
+        @sig
+            ensures
+                // the overlay is emptied ...
+                forall|pk: DbPartitionKey| #[trigger] final(self).overlay.part(pk) is None,
+                // ... and the root's `commit` ran exactly once, on updates with the staged content
+                D::commit_rel(old(self).root.borrowed(), unstaged_db(old(self).overlay), final(self).root.borrowed()),
+                forall|pk: DbPartitionKey| #[trigger] unstaged_db(old(self).overlay).part(pk) == old(self).overlay.part(pk),
+        @entry
+            proof { assert forall|pk: DbPartitionKey| #[trigger] unstaged_db(old(self).overlay).part(pk) == old(self).overlay.part(pk) by { lemma_unstaged_db(old(self).overlay, pk); } }
         @*/
     }
 
@@ -655,6 +965,32 @@ pub mod unit {
             assert(st1.last() == st[n - 1]);
             theorem_commit_is_apply(st[n - 1], us[n - 1], st[n]);
         }
+    }
+
+    /// FLUSH ("merging the overlay into the base yields that same database"): take the
+    /// postcondition of commit_overlay_into_root_store and, as a HYPOTHESIS on the root type (its
+    /// `commit` is not under contract here), that the root's commit applies the updates to its map
+    /// view.  Then the root afterwards IS the database the overlay showed before, and reads through
+    /// the (now empty) overlay are unchanged.
+    pub proof fn theorem_flush<S: BorrowMut<D>, D: SubstateDatabase + CommittableSubstateDatabase>(
+        pre: SubstateDatabaseOverlay<S, D>, post: SubstateDatabaseOverlay<S, D>)
+        requires
+            forall|pk: DbPartitionKey| #[trigger] post.overlay.part(pk) is None,
+            D::commit_rel(pre.root.borrowed(), unstaged_db(pre.overlay), post.root.borrowed()),
+            forall|pk: DbPartitionKey| #[trigger] unstaged_db(pre.overlay).part(pk) == pre.overlay.part(pk),
+            forall|a: D, u: DatabaseUpdates, b: D| #[trigger] D::commit_rel(a, u, b) ==> b.view() =~= apply(u@, a.view()),
+        ensures
+            post.root.borrowed().view() =~= pre.view(),
+            post.view() =~= pre.view(),
+    {
+        let base = pre.root.borrowed().view();
+        let u = unstaged_db(pre.overlay);
+        assert(post.root.borrowed().view() =~= apply(u@, base));
+        assert forall|k: DbSubstateKey| value_after(u@, base, k) == value_after(pre.overlay@, base, k) by {
+            assert(u.part(k.0) == pre.overlay.part(k.0));
+        }
+        assert(apply(u@, base) =~= apply(pre.overlay@, base));
+        theorem_fresh_is_root(post);
     }
 }
 } // verus!
